@@ -188,3 +188,113 @@ ASSUMPTIONS = [
     "callee contracts: resolve_ref (pure; returns the dependencies of a reference for the given recursion flag), Parameters._setup_refs (installs one watcher per source owner for the given dependencies), unwatch/cancel recorded as ghost events",
     "propagation (_sync_refs), construction-time linking (_setup_params) and reference kinds (bind, depends, rx, nested containers) are covered by the bounded layer only",
 ]
+
+
+# ---------------------------------------------------------------------------------------------
+# _syncing — marks the names being written by a sync; must be undone on every exit
+# ---------------------------------------------------------------------------------------------
+def syncing_contract():
+    """`with _syncing(obj, names): body` — inside the block the syncing set is the old one plus the
+    names; on BOTH exits (the sync may reject a value and raise) the object's syncing set is the very
+    set it had before — otherwise a later plain assignment is mistaken for a sync write and does not
+    unlink / cancel."""
+    import ast as _ast
+    setF = z3.Function("set_of", vm.V, vm.V)
+    unionF = z3.Function("set_union", vm.V, vm.V, vm.V)
+
+    def configure(I):
+        I.lib["new:set"] = lambda I, st, fv, args, kwargs, ctx: [(st, Sym(setF(I.term(args[0]))))]
+
+        def binop_first(I, st, op, a, b, ctx, node):
+            if isinstance(op, _ast.BitOr) and isinstance(a, Sym) and isinstance(b, Sym):
+                return [(st, Sym(unionF(a.t, b.t)))]
+            return None
+        I.lib["$binop_first"] = binop_first
+
+    def setup(I, st):
+        U = I.U
+        obj = I.alloc_obj(st, "Parameterized", lazy=True, label="obj")
+        priv = I.alloc_obj(st, "_InstancePrivate", lazy=True, label="obj._param__private")
+        old = Sym(U.fresh("syncing_before"))
+        st.heap[priv.oid].fields["syncing"] = old
+        st.heap[priv.oid].init["syncing"] = old
+        st.heap[obj.oid].fields["_param__private"] = priv
+        names = Sym(U.fresh("names"))
+
+        def body(I, st2, fv, args, kwargs, ctx):
+            st2.ghost["inside"] = I.term(st2.heap[priv.oid].fields["syncing"])
+            q = st2.fork()
+            return [(st2, Conc(None)), (q, Raise("$User", origin="body"))]
+        I.lib["__BODY__"] = body
+        return {"env": {"o": obj, "names": names, "__BODY__": FuncV("builtin", name="__BODY__", self=None)},
+                "priv": priv, "old": old.t, "names": names.t, "symbols": {}}
+
+    def runner(I, st, info, ctx):
+        from contracts.c05 import outcomes
+        stmt = dm.with_stmt("_syncing(o, names)")
+        st.env = dict(info["env"])
+        c = dict(ctx)
+        c["module"] = I.src.modules[MOD]
+        c["qual"] = "<harness>"
+        return outcomes(I.exec_stmt(stmt, st, c))
+
+    def post(I, info, st, oc):
+        how = "raise" if isinstance(oc, Raise) else "return"
+        now = I.term(st.heap[info["priv"].oid].fields["syncing"])
+        inside = st.ghost.get("inside")
+        out = [("exit/the syncing set is the very set the object had before[%s]" % how, now == info["old"]),
+               ("inside the block: the old names plus the names being synced[%s]" % how,
+                z3.BoolVal(False) if inside is None else inside == unionF(setF(info["old"]), setF(info["names"])))]
+        if isinstance(oc, Raise):
+            out.append(("exception propagates", z3.BoolVal(oc.cls == "$User")))
+        return out
+    c = FunctionContract("%s:_syncing" % MOD, PROP, setup, post, configure=configure, name="_syncing")
+    c.runner = runner
+    c.static_replay = SYNCING_REPLAY
+    c.static_witness = "a sync that rejects the delivered value, then a plain override of the linked parameter"
+    return c
+
+
+SYNCING_REPLAY = '''import sys, os
+sys.path.insert(0, os.environ.get('PYVC_REPO', '/repo'))
+import param
+bad = []
+class S(param.Parameterized):
+    a = param.Number(1)
+class T(param.Parameterized):
+    x = param.Number(0, bounds=(0, 10), allow_refs=True)
+    y = param.Number(0, allow_refs=True)
+for how in ('ctor', 'assign'):
+    s = S()
+    t = T(x=s.param.a, y=s.param.a) if how == 'ctor' else T()
+    if how == 'assign':
+        t.x = s.param.a; t.y = s.param.a
+    try:
+        s.a = 50                      # the sync delivers a value x rejects
+    except ValueError:
+        pass
+    if t._param__private.syncing:
+        bad.append('%s: after a rejected sync the object still marks %r as being synced' % (how, sorted(t._param__private.syncing)))
+    s.a = 2
+    if t.x != 2:
+        bad.append('%s: after a rejected sync the link no longer drives x (x == %r, source == 2)' % (how, t.x))
+    t.x = 5                            # plain override: unlinks for good
+    s.a = 7
+    if t.x != 5:
+        bad.append('%s: a plain override after a rejected sync was overwritten by the old source (x == %r)' % (how, t.x))
+    if t.y != 7:
+        bad.append('%s: the other link stopped following (y == %r)' % (how, t.y))
+if bad:
+    print('REPRODUCED: C08 syncing marks / links after a rejected sync:')
+    for b in bad:
+        print('  ', b)
+    sys.exit(1)
+print('NOT-REPRODUCED'); sys.exit(0)
+'''
+
+
+_c08_base = contracts
+
+
+def contracts():
+    return _c08_base() + [syncing_contract()]
